@@ -25,7 +25,7 @@ def lean_str(s):
 
 def lean_str_c(s):
     safe = "".join(c if 32 <= ord(c) < 127 and c not in "-/\\" else "?" for c in s)
-    return lean_str(s) + " /-" + safe + "-/"
+    return lean_str(s) + " /- " + safe + " -/"
 
 
 class FnTranslator:
